@@ -7,6 +7,7 @@ under Drivers/ and exports `handle : List String → Option String` (`none` = no
 import Iso8583.Drivers.Layers
 import Iso8583.Drivers.Fields
 import Iso8583.Drivers.Net
+import Iso8583.Drivers.History
 import Iso8583.Drivers.NoPanic
 import Iso8583.Drivers.Marshal
 import Iso8583.Drivers.Json
@@ -21,6 +22,7 @@ def handlers : List (List String → Option String) :=
   [ Iso8583.Drivers.Layers.handle,
     Iso8583.Drivers.Fields.handle,
     Iso8583.Drivers.Net.handle,
+    Iso8583.Drivers.History.handle,
     Iso8583.Drivers.NoPanic.handle,
     Iso8583.Drivers.Marshal.handle,
     Iso8583.Drivers.Json.handle,
